@@ -541,7 +541,7 @@ func runC03(c *Ctx) {
 		tn := m.Pkg("internal/counter").Pkg.Scope().Lookup(spec[0]).Type().Underlying().(*types.Struct)
 		okT := false
 		for i := 0; i < tn.NumFields(); i++ {
-			if tn.Field(i).Name() == spec[1] {
+			if refFieldName(m.Pkg("internal/counter").Pkg.Scope().Lookup(spec[0]).Type(), i) == spec[1] {
 				okT = strings.HasPrefix(tn.Field(i).Type().String(), "sync/atomic.Pointer[")
 			}
 		}
